@@ -1,12 +1,56 @@
 N = {"quick": 300, "thorough": 10000}
 EXHAUSTIVE = {"quick": False, "thorough": True}
-RULE = "tbd"
-ASSUMPTIONS = []
+RULE = ("random collections of 0-8 instrument definitions over 1-4 exchanges (all four instrument kinds, settlement assets, specs with asset / contract / quote "
+        "quantity units, 4 asset names shared between exchanges with per-exchange exchange-names, 25 % verbatim repeats, 20 % copies moved to another exchange); "
+        "per case: `build` (IndexedInstruments::new: the three tables, positional read-back of every definition, find_* round trips), three `perm` ops "
+        "(re-index a shuffled order, 30 % with an element repeated, compare with PartialEq), `engine` (real EngineState builder: instrument / asset / connectivity "
+        "IndexMaps read by position via instrument_index / asset_index / get_index), two `exec` ops (real ExecutionBuilder with add_mock / add_live for a random "
+        "subset of exchanges, 10 % with an unknown or duplicate exchange). 12 % of the cases violate the well-formedness hypotheses on purpose (model vs code only; "
+        "the spec stays silent on the clauses that need them). Thorough: additionally 26 collections of 0-5 definitions with EVERY insertion order (1+1+2+6+24+120 "
+        "orders per size). Distinct by SHA-1 of the op lines; non-trivial when the implementation's observation blocks differ at least once")
+ASSUMPTIONS = [
+    "WFAssets (needed by references_resolve, lookups_inverse_asset, tables_aligned_assets, resolve_by_name, engine_tables_resolve): within one exchange an asset's "
+    "name_internal determines its name_exchange. At the excluded points the real code resolves an asset reference to the first asset of that exchange with that "
+    "internal name and the engine's asset IndexMap (keyed by exchange + name_internal) collapses the entries so later positions shift; model and code agree there "
+    "(exercised on every run), the property's resolution clause does not hold",
+    "WFNames (needed by lookups_inverse_instrument, tables_aligned_instruments, resolve_by_name, engine_tables_resolve): instrument name_internal is unique over the "
+    "collection (documented in instrument/name.rs as unique across all exchanges). At the excluded points find_instrument_index returns the first match and the "
+    "engine's instrument IndexMap (keyed by name_internal) collapses entries / instrument_index panics past the end; model and code agree there",
+    "ExchangeId, SmolStr names, Decimal and DateTime fields are naturals ordered like the Rust values (the harness maps them order-preservingly: ascending ExchangeIds, "
+    "fixed-width names, integer decimals, millisecond expiries); the derived lexicographic Ord of the Rust structs is modelled by an injective sort key",
+    "slice::sort + Vec::dedup, IndexMap::from_iter / get_index and Iterator::find_map are modelled by their documented list semantics (List.mergeSort + adjacent dedup, "
+    "insert-or-replace-in-place, first match)",
+    "ExecutionBuilder is reduced to its ExchangeId -> ExchangeIndex table; transmitters are opaque (only Some/None per slot is observed); MockExchange set-up is exercised for spot-only exchanges, a stub live client otherwise",
+]
 SOURCE_FILES = ["barter-instrument/src/index/mod.rs", "barter-instrument/src/index/builder.rs",
                 "barter/src/engine/state/instrument/mod.rs", "barter/src/engine/state/asset/mod.rs",
                 "barter/src/engine/state/connectivity/mod.rs", "barter/src/engine/state/builder.rs",
                 "barter/src/execution/builder.rs"]
 CLAIM = True
-TECHNIQUE = "tbd"
-LEVEL_TEXT = "tbd"
-LEVEL_NOTE = "tbd"
+TECHNIQUE = ("Lean 4: sorted-duplicate-free lists are determined by their member set (strict_ext) under an injective sort key => order independence; enumerate gives "
+             "key = position; first-match lookups over duplicate-free tables are inverses of positional reads; IndexMap collection of distinct keys is the identity; "
+             "correspondence with IndexedInstruments::new, find_*, EngineState::builder and ExecutionBuilder")
+
+
+def signature(ops, k, key, impl_line, spec_line):
+    op = ops[k].split()[0] if k < len(ops) else "?"
+    return f"clause={key} op={op}"
+
+
+LEVEL_TEXT = ("Proof. lean/BarterModel/Props/C11.lean proves for EVERY finite list of instrument definitions (any order, duplicates, any number of exchanges, all kinds, "
+              "settlement and unit assets): the builder never panics (build_total); in all three tables the entry at position k has index k (dense); the exchange and "
+              "asset tables are permutations of the distinct exchanges / exchange-assets of the input and the instrument table has one entry per distinct definition "
+              "(unique_exchanges, unique_assets, count_instruments); every exchange reference points at its own exchange (exchange_reference_resolves); the result depends "
+              "only on the SET of definitions, hence on no insertion order or multiplicity (order_independent, order_independent_perm); find_exchange_index/find_exchange "
+              "are mutual inverses (lookups_inverse_exchange); connectivity and execution-transmitter tables hold at slot k the exchange with index k, a transmitter exactly "
+              "where one was added, in any add order, without panic (tables_aligned_connectivity, tables_aligned_exec, exec_add_total). Under the named hypotheses WFAssets / "
+              "WFNames: reading the instrument table back through the other tables by position yields exactly the distinct definitions, each once (references_resolve), every "
+              "definition is found by name at exactly one index and reads back as itself (resolve_by_name), asset and instrument lookups are mutual inverses "
+              "(lookups_inverse_asset, lookups_inverse_instrument), and the engine's instrument / asset tables hold at position k the entity with index k and read back to the "
+              "definition (tables_aligned_instruments, tables_aligned_assets, engine_tables_resolve). Unbounded in collection size; the suite's builder tests fix 1-3 instruments "
+              "in one order. All full strength, no _partial theorem.")
+LEVEL_NOTE = ("Trusted: Lean kernel; axioms propext/Classical.choice/Quot.sound only; the hand-written model (sort keys for the derived Ord, list semantics of sort/dedup/IndexMap) "
+              "tied to the code by sampled correspondence (300 quick / 10k random + every insertion order of 26 collections of <= 5 definitions thorough) through the real "
+              "IndexedInstruments, EngineState builder and ExecutionBuilder; harness and driver. Hypotheses WFAssets (asset internal name determines the asset within an exchange) "
+              "and WFNames (instrument internal names unique) are needed only for the clauses listed; at the excluded points the code mis-resolves / collapses IndexMap entries "
+              "(documented precondition, model and code agree there). Transmitter identity is not observed (only presence per slot).")
